@@ -290,6 +290,39 @@ func runC07(c *sim.Ctx) *sim.Violation {
 			return v
 		}
 	}
+	// (1c) every composition of the fixed header plus the first body byte (2^h
+	// schedules, h <= 5), the rest of the frame in one read: exhaustive over the
+	// part where a decoder still has to find out how long the frame is - for frames
+	// of every size, including multi-megabyte ones with a four-byte length
+	if h := hdrLen(frame); L > h+1 && L > 16 {
+		k := h + 1
+		limit := 1 << uint(k-1)
+		step := 1
+		if L > 1<<20 && !c.Thorough {
+			step = 1 + t.Int(2) // quick: every first or second composition (each copies megabytes)
+		}
+		for mask := t.Int(step); mask < limit; mask += step {
+			var segs []int
+			run := 1
+			for b := 0; b < k-1; b++ {
+				if mask&(1<<uint(b)) != 0 {
+					segs = append(segs, run)
+					run = 1
+				} else {
+					run++
+				}
+			}
+			segs = append(segs, run)
+			e := ending(mask % 3)
+			r := link.NewReader(c, streamFor(frame, e), link.Mode{DataEOF: e == endDataEOF}).WithPlan(&link.Plan{Segs: segs})
+			got := ReadOne(r)
+			sched++
+			if v := c07Compare(c, frame, want, got, r, e, fmt.Sprintf("header composition %v then the rest,", segs)); v != nil {
+				return v
+			}
+		}
+		c.Count("sweep.all-compositions-of-the-fixed-header+1")
+	}
 	// (2) one byte at a time
 	if L <= 4096 || t.Bool(1, 8) {
 		e := ending(t.Int(3))
